@@ -1,4 +1,97 @@
-(* C18 -- keyspace region planning is exact on every input (work in progress). *)
+(* C18 -- Keyspace region planning is exact on every input.
+   Property theorems only; every proof is `exact <lemma>`.  Model: Model/Trie.v, Model/Keyspace.v;
+   lemmas: Proofs/KeyspaceBase.v, KeyspaceProofs.v, KeyspaceAlloc.v, KeyspaceCovered.v.
+
+   All theorems are for ALL tries that are well formed ([wf]: every leaf lies on the path
+   spelled by its key and every inner node holds a key -- what Add / AddMany / Remove /
+   PruneSubtrie / CoalesceTrie / SubtractTrie produce; the harness checks it on every trie the
+   real code builds), by induction on the trie, against definitions over [entries t] /
+   [keys_of t] only. *)
 From Verif.Lib Require Import GoSem Bits.
 From Verif.Model Require Import Trie Keyspace.
-From Verif.Proofs Require Import KeyspaceProofs.
+From Verif.Proofs Require Import KeyspaceBase KeyspaceProofs KeyspaceAlloc KeyspaceCovered.
+From Coq Require Import Permutation Sorted.
+
+(* 1. AllocateToKClosest.  [alloc_ok r items dests pairs]: there is, for every item, a list of
+   exactly min(r, |dests|) distinct destinations, each nearer to the item (lexicographic order of
+   the XOR of the bit lists) than every destination left out, and the (destination, item) pairs
+   produced are exactly those, each once.  No panic when the tries are at most 256 deep and item
+   keys are at least as long as the destination trie is deep (all keys are 256 bits in the
+   provider: second statement). *)
+Theorem c18_alloc_exact :
+  forall (D0 D1 : Type) (dz : D0) (items : trie D0) (dests : trie D1) (r : nat),
+    wf items -> wf dests -> height items <= 256 -> height dests <= 256 ->
+    (forall it, In it (entries items) -> height dests <= length (fst it)) ->
+    exists out, allocate_to_k_closest dz items dests r = Ok out /\
+                alloc_ok r (entries items) (entries dests) (pairs out).
+Proof. exact @alloc_exact. Qed.
+Print Assumptions c18_alloc_exact.
+
+Theorem c18_alloc_exact_fixed_length :
+  forall (D0 D1 : Type) (dz : D0) (items : trie D0) (dests : trie D1) (r n : nat),
+    wf items -> wf dests -> n <= 256 ->
+    (forall it, In it (entries items) -> length (fst it) = n) ->
+    (forall de, In de (entries dests) -> length (fst de) = n) ->
+    exists out, allocate_to_k_closest dz items dests r = Ok out /\
+                alloc_ok r (entries items) (entries dests) (pairs out).
+Proof. exact @alloc_exact_fixed_length. Qed.
+Print Assumptions c18_alloc_exact_fixed_length.
+
+(* 2. FindPrefixOfKey: no panic; a match is reported iff some key of the trie is a prefix of k,
+   and the key returned is that (unique) key. *)
+Theorem c18_find_prefix_exact :
+  forall (D : Type) (t : trie D) (k : bits), wf t ->
+    exists x b, find_prefix_of_key t k = Ok (x, b) /\
+      (b = true <-> exists y, In y (keys_of t) /\ is_prefix y k = true) /\
+      (b = true -> In x (keys_of t) /\ is_prefix x k = true /\
+                   forall y, In y (keys_of t) -> is_prefix y k = true -> y = x).
+Proof. exact @find_prefix_exact. Qed.
+Print Assumptions c18_find_prefix_exact.
+
+(* 3. FindSubtrie: no panic; ok iff some key has k as prefix; the subtrie holds exactly the
+   entries under k (same order) and is itself well formed. *)
+Theorem c18_find_subtrie_exact :
+  forall (D : Type) (t : trie D) (k : bits), wf t ->
+    exists s ok, find_subtrie t k = Ok (s, ok) /\
+      (ok = true <-> exists e, In e (entries t) /\ is_prefix k (fst e) = true) /\
+      (ok = true -> entries s = filter (under k) (entries t) /\ exists q, wf_at q s).
+Proof. exact @find_subtrie_exact. Qed.
+Print Assumptions c18_find_subtrie_exact.
+
+(* 4. PruneSubtrie: no panic; removes exactly the entries under k; the result is well formed. *)
+Theorem c18_prune_exact :
+  forall (D : Type) (t : trie D) (k : bits), wf t ->
+    exists t', prune_subtrie t k = Ok t' /\ wf t' /\
+      entries t' = filter (fun e => negb (is_prefix k (fst e))) (entries t).
+Proof. exact @prune_exact. Qed.
+Print Assumptions c18_prune_exact.
+
+(* 5. AllEntries / AllKeys / AllValues: the entries of the trie, sorted by the order. *)
+Theorem c18_all_entries_sorted :
+  forall (D : Type) (t : trie D) (order : bits), wf t -> height t <= length order ->
+    exists l, all_entries t order = Ok l /\ Permutation l (entries t) /\
+              StronglySorted (fun e1 e2 => ord_before order (fst e1) (fst e2)) l.
+Proof. exact @all_entries_sorted. Qed.
+Print Assumptions c18_all_entries_sorted.
+
+(* 6. KeyspaceCovered answers true exactly when the keys tile the keyspace: every key at least
+   as long as every member has a member as prefix (exactly one: the set is prefix-free). *)
+Theorem c18_covered_iff_tiles :
+  forall (D : Type) (t : trie D), wf t -> height t <= 256 ->
+    (keyspace_covered t = Ok true <-> covers (keys_of t) []).
+Proof. exact @covered_iff_tiles. Qed.
+Print Assumptions c18_covered_iff_tiles.
+
+(* Non-vacuity: a well-formed, non-canonical trie (an empty branch above a split), a lookup, an
+   allocation to the 2 nearest of 3 destinations and a covered keyspace. *)
+Definition ex_t : trie nat := Nd E (Nd (L [true; false] 1) (L [true; true; false] 2)).
+Definition ex_full : trie nat := Nd (L [false] 0) (Nd (L [true; false] 1) (L [true; true] 2)).
+Definition ex_items : trie nat := Nd (L [false; false; true] 7) (L [true; true; true] 8).
+Definition ex_dests : trie nat :=
+  Nd (Nd (L [false; false; false] 10) (L [false; true; true] 11)) (L [true; false; false] 12).
+Example c18_nonvacuous :
+  wf ex_t /\ find_prefix_of_key ex_t [true; true; false; true] = Ok ([true; true; false], true) /\
+  wf ex_full /\ keyspace_covered ex_full = Ok true /\ keyspace_covered ex_t = Ok false /\
+  wf ex_items /\ wf ex_dests /\
+  allocate_to_k_closest 0 ex_items ex_dests 2 = Ok [(10, [7]); (11, [7]); (12, [8]); (11, [8])].
+Proof. vm_compute. repeat split; auto; lia. Qed.
